@@ -45,6 +45,8 @@ clause → theorem
 * a parked off-reader handler holding a permit when the
   connection ends (composition with C16) ........................ `parked_handlers_cancelled_and_slots_freed` (uses `C16.exit_frees_slot`,
                                                                `C16.all_exited_running_zero`)
+* cancel while the reader is suspended in a send / idle, whatever
+  the writer does ................................................ `cancel_ends_suspended_reader` (+ `released_before_writer_drain`)
 * (supporting) the writer task does not outlive the connection
   task; registry entry is released before the writer is awaited . `writer_torn_down_with_task`, `released_before_writer_drain`
 
@@ -398,6 +400,44 @@ example : run (withFacts { Facts.good with writerBeforeGuard := false }) init
 /-- no `AbortOnDrop`: an aborted task leaves its writer running -/
 example : (run (withFacts { Facts.good with abortOnDrop := false }) init (hooksOk ++ [.abort])).map
     (fun s => (s.phase, s.writer)) = some (.done, .signalled) := by decide
+
+/-! ### cancel and reader-detected end while the writer is blocked -/
+
+/-- **Cancel reaches a suspended reader.**  In every reachable state whose token is cancelled and whose
+reader is parked — idle in `next()` or suspended in `outbound_tx.send` on a full channel, whatever the
+writer is doing (jammed against a peer that does not read, failed, …) — the `select!`'s cancelled arm
+is enabled, and taking it drops the guard at once: the token stays cancelled, every disconnect hook
+runs (each once, after the connects), and only then does the task wait for its writer.  (The token is
+raced against the whole reader future: fact `cancelRacesWholeReader`.) -/
+theorem cancel_ends_suspended_reader (c : Cfg) (hc : c.F = Gen.Lifecycle.facts) (s : St) (hr : Reachable c s)
+    (ht : s.token = true) (hp : s.phase = .reading ∨ ∃ id, s.phase = .sendBlocked id) :
+    Gen.Lifecycle.cancelRacesWholeReader = true ∧
+    ∃ s', step c s .selectCancelled = some s' ∧ s'.phase = .draining ∧ s'.guard = .dropped ∧ s'.token = true ∧
+      s'.trace = s.trace ++ .cancel :: disconnects c.nDisc := by
+  refine ⟨by decide, ?_⟩
+  have hF : c.F.ok = true := hc ▸ source_facts
+  obtain ⟨_, _, hib, _, hcb, _⟩ := facts_ok hF
+  have h := hinv_reachable hF hr
+  have ha : s.accepted = true := by
+    cases ha : s.accepted with
+    | true => rfl
+    | false =>
+      have := (h.pre ha).2.2.2
+      rcases hp with hp | ⟨id, hp⟩ <;> simp [hp] at this
+  have hph := h.phase ha
+  have hg : s.guard = .armed := by
+    rcases hp with hp | ⟨id, hp⟩ <;> simp only [hp, PhaseOk] at hph <;> exact hph.2
+  have hx : (exitBlock c s).phase = .draining ∧ (exitBlock c s).guard = .dropped ∧ (exitBlock c s).token = true ∧
+      (exitBlock c s).trace = s.trace ++ .cancel :: disconnects c.nDisc := by
+    unfold exitBlock
+    simp [hib, dropGuard_armed c s hg, dropEvents_good c.F hcb]
+  refine ⟨exitBlock c s, ?_, hx.1, hx.2.1, hx.2.2.1, hx.2.2.2⟩
+  rcases hp with hp | ⟨id, hp⟩ <;> simp [step, Lifecycle.step, ht, hp]
+
+/-- the hypotheses are satisfiable with the reader really suspended: channel of capacity 2 full, writer not
+draining, parent token cancelled -/
+example : (run demo init (hooksOk ++ [.recvInline, .inlineReturn (some 1), .recvInline, .inlineReturn (some 2), .parentCancel])).map
+    (fun s => (s.phase, s.token, s.queue.length)) = some (.sendBlocked 2, true, 2) := by decide
 
 /-! ### one identity per connection, hooks in registration order -/
 
